@@ -37,14 +37,18 @@ func FillMissingLinearAdvanceProof(
 	targetTxID uint64,
 	imc ImmuServiceClient,
 ) error {
+	if proof == nil {
+		// a broken proof anyway
+		return nil
+	}
+
 	if proof.LinearAdvanceProof != nil {
 		// The proof is already present, no need to fill it in
 		return nil
 	}
 
 	// Early preconditions that indicate a broken proof anyway
-	if proof == nil ||
-		proof.SourceTxHeader == nil ||
+	if proof.SourceTxHeader == nil ||
 		proof.TargetTxHeader == nil ||
 		proof.SourceTxHeader.ID != sourceTxID ||
 		proof.TargetTxHeader.ID != targetTxID {
@@ -75,6 +79,9 @@ func FillMissingLinearAdvanceProof(
 		if err != nil {
 			return err
 		}
+		if partialProof == nil || partialProof.DualProof == nil {
+			return ErrIncompleteProof
+		}
 		lAdvProof.InclusionProofs[txID-startTxID-1] = DigestsFromProto(partialProof.DualProof.InclusionProof)
 	}
 
@@ -90,6 +97,9 @@ func FillMissingLinearAdvanceProof(
 		// If there's any inconsistency, the proof validation will fail detecting incorrect
 		// response from the server.
 		return err
+	}
+	if partialProof == nil || partialProof.DualProof == nil || partialProof.DualProof.LinearProof == nil {
+		return ErrIncompleteProof
 	}
 	lAdvProof.LinearProofTerms = DigestsFromProto(partialProof.DualProof.LinearProof.Terms)
 
